@@ -404,3 +404,91 @@ pub fn fam_poison(thorough: bool) -> Vec<Program> {
 	}
 	out
 }
+
+/// Family R (C09): a retrying acquisition against threads that hold or acquire overlapping leaves.
+pub fn fam_c09(thorough: bool) -> Vec<Program> {
+	let mut out = vec![];
+	let maxn = if thorough { 4 } else { 3 };
+	let body = Body { touch: true, yield_mid: false, panic: false };
+	for policy in POLICIES {
+		for n in 1..=maxn {
+			for arr in perms(n) {
+				for w0 in [true, false] {
+					let t0spec = Spec::Coll(Kind::Retry, rs(&arr));
+					let t0 = |f: Flavour| vec![acq(0, w0, f, body)];
+					// opponents over the same leaves
+					let mut opp: Vec<(Vec<Spec>, Vec<Vec<Step>>)> = vec![];
+					// each single leaf held exclusively / shared by one other thread
+					for i in 0..n {
+						for w1 in [true, false] {
+							opp.push((vec![Spec::R(i)], vec![vec![acq(1, w1, Flavour::Guard, body)]]));
+						}
+					}
+					if n >= 2 {
+						let id: Vec<usize> = (0..n).collect();
+						let rev: Vec<usize> = (0..n).rev().collect();
+						for k in KINDS {
+							for a in [&id, &rev] {
+								for w1 in [true, false] {
+									if k != Kind::Retry && *a == rev {
+										continue; // sorting collections ignore the listing order
+									}
+									opp.push((vec![Spec::Coll(k, rs(a))], vec![vec![acq(1, w1, Flavour::Guard, body)]]));
+								}
+							}
+						}
+						// two other threads, one on the first and one on the last listed leaf
+						opp.push((vec![Spec::R(arr[0]), Spec::R(arr[n - 1])], vec![vec![acq(1, true, Flavour::Guard, body)], vec![acq(2, true, Flavour::ScopedLent, body)]]));
+						if n == 2 || thorough {
+							opp.push((vec![Spec::Coll(Kind::Retry, rs(&rev)), Spec::R(arr[n - 1])], vec![vec![acq(1, true, Flavour::Guard, body)], vec![acq(2, false, Flavour::Guard, body)]]));
+						}
+					}
+					for (ospecs, othreads) in opp {
+						let any_writer = w0 || othreads.iter().flatten().any(|s| matches!(s, Step::Acq { write: true, .. }));
+						if policy == Policy::WP && (!any_writer || (w0 && othreads.iter().flatten().all(|s| matches!(s, Step::Acq { write: true, .. })))) {
+							continue;
+						}
+						let flavours: &[Flavour] = if n <= 2 || thorough { &[Flavour::Guard, Flavour::ScopedLent, Flavour::ScopedOwned] } else { &[Flavour::Guard] };
+						for f in flavours {
+							let mut specs = vec![t0spec.clone()];
+							specs.extend(ospecs.clone());
+							let mut threads = vec![t0(*f)];
+							threads.extend(othreads.clone());
+							out.push(Program { specs, threads, policy, name: format!("R{}", n), menu: vec![] });
+						}
+					}
+				}
+			}
+		}
+	}
+	// owned units and nested members inside the retrying collection
+	let nested: Vec<(Spec, Vec<Spec>)> = vec![
+		(Spec::Coll(Kind::Retry, vec![Spec::R(0), Spec::OW(0)]), vec![Spec::Coll(Kind::Boxed, vec![Spec::OW(0), Spec::R(0)]), Spec::OW(0), Spec::Coll(Kind::Retry, vec![Spec::OW(0), Spec::R(0)]), Spec::R(0)]),
+		(Spec::Coll(Kind::Retry, vec![Spec::OW(0), Spec::R(0)]), vec![Spec::Native(Native::NewOW(Kind::Ref, 0)), Spec::R(0)]),
+		(Spec::Coll(Kind::Retry, vec![Spec::Coll(Kind::Boxed, vec![Spec::R(1), Spec::R(0)]), Spec::R(2)]), vec![Spec::Coll(Kind::Boxed, vec![Spec::R(2), Spec::R(0)]), Spec::R(1), Spec::Coll(Kind::Retry, vec![Spec::R(2), Spec::R(1)])]),
+		(Spec::Coll(Kind::Retry, vec![Spec::R(2), Spec::Coll(Kind::Retry, vec![Spec::R(0), Spec::R(1)])]), vec![Spec::Coll(Kind::Ref, vec![Spec::R(1), Spec::R(2)]), Spec::R(0)]),
+		(Spec::Coll(Kind::Retry, vec![Spec::PR(0), Spec::R(0)]), vec![Spec::PR(0), Spec::Coll(Kind::Boxed, vec![Spec::R(0), Spec::PR(0)])]),
+		(Spec::Pois(Box::new(Spec::Coll(Kind::Retry, vec![Spec::R(1), Spec::R(0)]))), vec![Spec::Coll(Kind::Retry, vec![Spec::R(0), Spec::R(1)]), Spec::R(1)]),
+		(Spec::Coll(Kind::Retry, vec![Spec::M(1), Spec::R(0), Spec::M(0)]), vec![Spec::Coll(Kind::Boxed, vec![Spec::M(0), Spec::M(1)]), Spec::R(0), Spec::M(0)]),
+		(Spec::Native(Native::Slice(Kind::Retry, vec![2, 0, 1])), vec![Spec::Native(Native::Arr3(Kind::Retry, [1, 0, 2])), Spec::R(1)]),
+		(Spec::Native(Native::TupMR(Kind::Retry, 0, 0)), vec![Spec::Coll(Kind::Retry, vec![Spec::R(0), Spec::M(0)]), Spec::M(0)]),
+	];
+	for policy in POLICIES {
+		for (t0s, others) in &nested {
+			for o in others {
+				for w0 in [true, false] {
+					for w1 in [true, false] {
+						if (!w0 && !t0s.sharable()) || (!w1 && !o.sharable()) {
+							continue;
+						}
+						if policy == Policy::WP && ((w0 && w1) || (!w0 && !w1)) {
+							continue;
+						}
+						out.push(Program { specs: vec![t0s.clone(), o.clone()], threads: vec![vec![acq(0, w0, Flavour::Guard, body)], vec![acq(1, w1, Flavour::Guard, body)]], policy, name: "Rn".into(), menu: vec![] });
+					}
+				}
+			}
+		}
+	}
+	out
+}
